@@ -984,6 +984,9 @@ class OdeSystem(object):
 
         if D.ar_numpy.abs(self.dt) > D.ar_numpy.abs(tf - self.__t[self.counter]):
             self.dt = D.ar_numpy.abs(tf - self.__t[self.counter]) * 0.5
+            if self.__t[self.counter] + (tf - self.__t[self.counter]) * 0.5 == self.__t[self.counter]:
+                # the target is one unit in the last place away: half of that cannot advance the time
+                self.dt = D.ar_numpy.abs(tf - self.__t[self.counter])
 
         total_steps = self.__alloc_space_steps(tf)
 
